@@ -78,6 +78,11 @@ def evalPlacementC (asr : Bool) (s : RowLeg.State) (width target : Int) :
     let r ← RowLeg.getCostC asr s width target
     pure ((true, r.1), r.2)
 
+/-- `evaluatePlacement`, unbounded -/
+def evalPlacement (s : RowLeg.State) (width target : Int) : (Bool × Int) × RowLeg.State :=
+  if s.remaining < width then ((false, 0), s)
+  else ((true, (RowLeg.getCost s width target).1), (RowLeg.getCost s width target).2)
+
 /-- `long long yDist = cellWidth_[cell] * norm(0, rows_[row].minY - targetY, L1)` and
 `long long dist = xDist + yDist` in `placeCell` -/
 def placeCostC (width rowMinY targetY xDist : Int) : Except Fault Int := do
